@@ -1,53 +1,103 @@
-(* C20 — EqualObjects does not terminate on a cycle that alternates between a direct object
-   and a reference on either side (pairs are only recorded when BOTH sides are references). *)
+(* C20 — termination of EqualObjects: the recursion depth check bounds every descent, so a
+   fuel that depends only on the limit always suffices (mixed direct/indirect cycles
+   included: they end in the error outcome). *)
 From Coq Require Import List ZArith NArith Bool Lia.
 From PV Require Import C20.Model C20.Spec C20.Proofs.
 Import ListNotations.
 Open Scope Z_scope.
 
-(* 1 0 obj [[1 0 R]] endobj   2 0 obj [1 0 R] endobj *)
+Lemma join_nf : forall a b, a <> CFuel -> b <> CFuel -> join a b <> CFuel.
+Proof. intros a b Ha Hb. destruct a, b; simpl; congruence. Qed.
+
+Section NoFuel.
+  Variable g : graph.
+  Variable rec : obj -> obj -> list Z -> cmp.
+  Hypothesis Hrec : forall x y p, rec x y p <> CFuel.
+
+  Lemma equalArrayElems_nf : forall a1 a2 p, equalArrayElems rec a1 a2 p <> CFuel.
+  Proof.
+    induction a1 as [|x t1 IH]; destruct a2 as [|y t2]; intro p; simpl; try discriminate.
+    pose proof (Hrec x y p) as Hx. destruct (rec x y p); try congruence; try apply IH.
+  Qed.
+  Lemma equalArrays_nf : forall a1 a2 p, equalArrays rec a1 a2 p <> CFuel.
+  Proof. intros a1 a2 p. unfold equalArrays. destruct (negb _). discriminate. apply equalArrayElems_nf. Qed.
+
+  Lemma equalFontNames_nf : forall v1 v2, equalFontNames g v1 v2 <> CFuel.
+  Proof.
+    intros v1 v2. unfold equalFontNames.
+    destruct (deref g v1); try discriminate. destruct (deref g v2); try discriminate.
+    destruct (beqb _ _); discriminate.
+  Qed.
+
+  Lemma dictEntry_nf : forall fd d2 p kv, dictEntry g rec fd d2 p kv <> CFuel.
+  Proof.
+    intros fd d2 p kv. unfold dictEntry. destruct (lookup (fst kv) d2). 2: discriminate.
+    destruct (fd && special (fst kv)). apply equalFontNames_nf. apply Hrec.
+  Qed.
+
+  Lemma equalDicts_nf : forall d1 d2 p, equalDicts g rec d1 d2 p <> CFuel.
+  Proof.
+    intros d1 d2 p. unfold equalDicts. destruct (negb _). discriminate.
+    generalize (typeIsFontDirect d1 && typeIsFontDirect d2). intro fd.
+    induction d1 as [|kv t IH]; simpl. discriminate.
+    apply join_nf. apply dictEntry_nf. exact IH.
+  Qed.
+
+  Lemma equalStreamDicts_nf : forall d1 r1 d2 r2 p, equalStreamDicts g rec d1 r1 d2 r2 p <> CFuel.
+  Proof.
+    intros d1 r1 d2 r2 p. unfold equalStreamDicts.
+    pose proof (equalDicts_nf d1 d2 p) as H.
+    destruct (equalDicts g rec d1 d2 p); try congruence.
+    destruct r1. destruct (beqb _ _); discriminate. discriminate.
+  Qed.
+
+  Lemma compareDeref_nf : forall o1 o2 p, compareDeref g rec o1 o2 p <> CFuel.
+  Proof.
+    intros o1 o2 p. unfold compareDeref.
+    destruct (deref g o1), (deref g o2); try discriminate;
+      try (match goal with |- (if ?c then _ else _) <> _ => destruct c; discriminate end).
+    - apply equalArrays_nf.
+    - apply equalDicts_nf.
+    - apply equalStreamDicts_nf.
+  Qed.
+End NoFuel.
+
+Lemma equalObjects_terminates : forall limit g fuel depth o1 o2 pairs,
+  (Z.to_nat (limit + 1 - depth) + 1 <= fuel)%nat ->
+  equalObjects fuel limit g o1 o2 pairs depth <> CFuel.
+Proof.
+  intros limit g fuel. induction fuel as [|f IH]; intros depth o1 o2 pairs L. lia.
+  simpl. destruct (limit <? depth) eqn:EL. discriminate.
+  apply Z.ltb_ge in EL.
+  assert (forall x y p, equalObjects f limit g x y p (depth + 1) <> CFuel) as Hrec.
+  { intros x y p. apply IH. replace (limit + 1 - depth) with (Z.succ (limit + 1 - (depth + 1))) in L by lia.
+    rewrite Z2Nat.inj_succ in L by lia. lia. }
+  destruct o1; try (apply compareDeref_nf; exact Hrec).
+  destruct o2; try (apply compareDeref_nf; exact Hrec).
+  destruct ((nr =? nr0) && (gen =? gen0)). discriminate.
+  destruct (containsPair pairs nr nr0). discriminate.
+  apply compareDeref_nf. exact Hrec.
+Qed.
+
+(* for every graph (mixed cycles included), every limit, every pair of objects and every
+   caller-supplied pairs slice: the fuel enoughFuel limit (a function of the limit only)
+   suffices, and so does any larger one *)
+Theorem equal_objects_terminates : forall limit g o1 o2 pairs fuel,
+  (enoughFuel limit <= fuel)%nat -> EqualObjects fuel limit g o1 o2 pairs <> CFuel.
+Proof.
+  intros limit g o1 o2 pairs fuel L. unfold EqualObjects. apply equalObjects_terminates.
+  unfold enoughFuel in L. replace (limit + 1 - 0) with (limit + 1) by lia. exact L.
+Qed.
+
+(* the former non-termination witness:  1 0 obj [[1 0 R]]   2 0 obj [1 0 R]  now ends in the
+   error outcome *)
 Definition mixed_g : graph := fun nr =>
   match nr with
   | 1 => OArr [OArr [ORef 1 0]]
   | 2 => OArr [ORef 1 0]
   | _ => ONull
   end.
-
-Lemma mixed_loop : forall f pairs,
-  EqualObjects f mixed_g (OArr [ORef 1 0]) (ORef 1 0) pairs = CFuel /\
-  EqualObjects f mixed_g (ORef 1 0) (OArr [ORef 1 0]) pairs = CFuel.
-Proof.
-  induction f as [|f IH]; intro pairs. split; reflexivity.
-  destruct (IH pairs) as [IH1 IH2]. split.
-  - change (EqualObjects (S f) mixed_g (OArr [ORef 1 0]) (ORef 1 0) pairs)
-      with (match EqualObjects f mixed_g (ORef 1 0) (OArr [ORef 1 0]) pairs with
-            | CT => CT | r => r end).
-    rewrite IH2. reflexivity.
-  - change (EqualObjects (S f) mixed_g (ORef 1 0) (OArr [ORef 1 0]) pairs)
-      with (match EqualObjects f mixed_g (OArr [ORef 1 0]) (ORef 1 0) pairs with
-            | CT => CT | r => r end).
-    rewrite IH1. reflexivity.
-Qed.
-
-Lemma mixed_wf : wfg mixed_g.
-Proof. intro nr. unfold mixed_g. destruct nr as [|p|p]; try reflexivity. do 2 (destruct p; try reflexivity). Qed.
-
-Lemma mixed_sim : forall n,
-  sim n mixed_g (ORef 1 0) mixed_g (OArr [ORef 1 0]) /\
-  sim n mixed_g (OArr [ORef 1 0]) mixed_g (ORef 1 0).
-Proof.
-  induction n as [|m [IH1 IH2]]. split; exact I.
-  split; simpl; constructor; auto.
-Qed.
-
-Theorem termination_refuted : exists g o1 o2,
-  wfg g /\ (forall n, sim n g o1 g o2) /\ forall fuel, EqualObjects fuel g o1 o2 [] = CFuel.
-Proof.
-  exists mixed_g, (ORef 1 0), (ORef 2 0). split. exact mixed_wf. split.
-  - intro n. destruct n as [|m]. exact I. simpl. constructor; [|constructor]. apply (proj2 (mixed_sim m)).
-  - intro fuel. destruct fuel as [|f]. reflexivity.
-    change (EqualObjects (S f) mixed_g (ORef 1 0) (ORef 2 0) [])
-      with (match EqualObjects f mixed_g (OArr [ORef 1 0]) (ORef 1 0) (appendPair [] 1 2) with
-            | CT => CT | r => r end).
-    rewrite (proj1 (mixed_loop f _)). reflexivity.
-Qed.
+Lemma mixed_cycle_errors :
+  EqualObjects (enoughFuel 100) 100 mixed_g (ORef 1 0) (ORef 2 0) [] = CE /\
+  EqualObjects (enoughFuel 3) 3 mixed_g (ORef 1 0) (ORef 2 0) [] = CE.
+Proof. split; vm_compute; reflexivity. Qed.
